@@ -89,3 +89,51 @@ def compare_listed(spec_, got, kind, check_addr=True):
         i = next(k for k in range(len(want_data)) if got["data"][k] != want_data[k])
         return ("data bytes", "byte {} = {:02X}".format(i, want_data[i]), "{:02X}".format(got["data"][i]))
     return None
+
+
+# --------------------------------------------------------------------------------------
+# what a user sees: `file_util.py <image> --list`
+
+_TYPE_WORDS = {0: "BASIC", 1: "Data", 2: "Object", 3: "Text"}
+_DTYPE_WORDS = {0x00: "Binary", 0xFF: "ASCII"}
+
+
+def cli_list(path):
+    """run file_util --list in-process -> (status, [one dict of printed fields per '-- File #n --' section], raw text)"""
+    import re
+    from . import cli
+    status, out = cli.file_util(path, list_=True)
+    sections = re.split(r"^-- File #\d+ --\s*$", out, flags=re.M)[1:]
+    files = []
+    for sec in sections:
+        d = {}
+        for key, rx in (("name", r"^Filename:[ \t]*(.*)$"), ("ext", r"^Extension:[ \t]*(.*)$"), ("type", r"^File Type:[ \t]*(.*)$"),
+                        ("dtype", r"^Data Type:[ \t]*(.*)$"), ("load", r"^Load Addr:[ \t]*\$([0-9A-Fa-f]+)[ \t]*$"),
+                        ("exec", r"^Exec Addr:[ \t]*\$([0-9A-Fa-f]+)[ \t]*$"), ("len", r"^Data Len:[ \t]*(\d+) bytes[ \t]*$")):
+            m = re.search(rx, sec, flags=re.M)
+            if m:
+                d[key] = m.group(1)
+        files.append(d)
+    return status, files, out
+
+
+def compare_cli(specs, printed, kind):
+    """-> None or (symptom, expected, observed): the printed listing against the file specs (fields that are not printed are not judged)"""
+    if len(printed) != len(specs):
+        return "file_util --list prints {} files".format("fewer" if len(printed) < len(specs) else "more"), len(specs), len(printed)
+    for i, (s, d) in enumerate(zip(specs, printed)):
+        if "name" in d and d["name"].upper().rstrip(" \0")[:8].rstrip() != name8(s["name"]).rstrip():
+            return "file_util --list: name differs", name8(s["name"]), d["name"]
+        if kind == "dsk" and "ext" in d and d["ext"].upper().strip()[:3] != s.get("ext", "").upper()[:3].strip():
+            return "file_util --list: extension differs", s.get("ext"), d["ext"]
+        if "type" in d and d["type"].strip() != _TYPE_WORDS.get(s["type"], "?"):
+            return "file_util --list: file type differs", _TYPE_WORDS.get(s["type"]), d["type"]
+        if "dtype" in d and s["dtype"] in _DTYPE_WORDS and d["dtype"].strip() != _DTYPE_WORDS[s["dtype"]]:
+            return "file_util --list: data type differs", _DTYPE_WORDS[s["dtype"]], d["dtype"]
+        if s["type"] == 2:
+            for key, word in (("load", "load address"), ("exec", "exec address")):
+                if key in d and int(d[key], 16) != s[key]:
+                    return "file_util --list: {} differs".format(word), "{:04X}".format(s[key]), d[key]
+        if "len" in d and int(d["len"]) != s["n"]:
+            return "file_util --list: data length differs", s["n"], d["len"]
+    return None
